@@ -178,15 +178,35 @@ mod register {
                     if !std::mem::replace(&mut first, false) {
                         buff.push(',');
                     }
-                    buff.push('\"');
-                    buff.push_str(value);
-                    buff.push('\"');
+                    push_js_str(&mut buff, value);
                 }
                 buff.push_str("]}");
             }
             buff.push_str("];");
             buff
         }
+    }
+
+    /// Push `s` as a JS (and JSON) string literal that is safe inside a `<script>` element.
+    fn push_js_str(buff: &mut String, s: &str) {
+        buff.push('"');
+        for c in s.chars() {
+            match c {
+                '"' => buff.push_str("\\\""),
+                '\\' => buff.push_str("\\\\"),
+                '\n' => buff.push_str("\\n"),
+                '\r' => buff.push_str("\\r"),
+                '\t' => buff.push_str("\\t"),
+                '\u{8}' => buff.push_str("\\b"),
+                '\u{c}' => buff.push_str("\\f"),
+                '<' => buff.push_str("\\u003C"),
+                '\u{2028}' => buff.push_str("\\u2028"),
+                '\u{2029}' => buff.push_str("\\u2029"),
+                c if c < '\u{20}' => buff.push_str(&format!("\\u{:04X}", c as u32)),
+                c => buff.push(c),
+            }
+        }
+        buff.push('"');
     }
 }
 
